@@ -160,7 +160,11 @@ def c_advance_by(I, callee, args, st, n, fidx):
     strm = stream(I, st, cid)
     kind = "consume" if cid == "main" else "la_consume"
     if isinstance(cnt, Const) and cnt.t == "int" and 0 < cnt.v <= 8:
-        chars = [LA(strm, c.pos, i) for i in range(cnt.v)]
+        chars = []
+        for i in range(cnt.v):
+            if eof_known(st, strm, c.pos + i) is True:
+                break   # advance_by stops at end of input
+            chars.append(LA(strm, c.pos, i))
         I.emit(st, kind, n, cursor=cid, count=cnt, chars=chars, via="advance_by", pos=c.pos,
                facts=[st.cf(x) for x in chars])
         if cid == "main":
@@ -261,6 +265,15 @@ def it_next(I, callee, args, st, n, fidx):
     cid = cursor_of(a)
     if cid is not None and cid in st.cursors:
         return c_advance(I, callee, [a], st, n, fidx)
+    if isinstance(a, Term) and a.op in ("iter_nonempty", "iter_rest"):
+        st.fields["_item"] = st.fields.get("_item", 0) + 1
+        item = Term("item_of", (a.args[0], Const("int", st.fields["_item"])), None)
+        if a.op == "iter_nonempty":
+            if isinstance(args[0], LRef):
+                I.store(args[0], Term("iter_rest", a.args, a.ty), st, n)
+            return val(some(item), st)
+        s2 = st.clone()
+        return [Out("val", some(item), st), Out("val", NONE, s2)]
     v = st.sym("next", n.get("ty"))
     return val(v, st)
 
@@ -415,9 +428,13 @@ def v_get(I, callee, args, st, n, fidx):
 @prim("std::vec::Vec::is_empty", "core::slice::is_empty")
 def v_is_empty(I, callee, args, st, n, fidx):
     a = args[0]
+    if isinstance(a, LRef):
+        a = I.deref(a, st)
     if is_obj(a, "mode_stack"):
         if st.stack:
             return val(FALSE, st)
+    if isinstance(a, Term) and a.op == "resolve_ops":
+        return val(FALSE, st)
     return val(Term("is_empty", (a,), "bool"), st)
 
 
@@ -487,6 +504,13 @@ def opt_cases(I, a, st, fidx):
     key = a.key()
     inc, exc = st.vfacts.get(key, (None, frozenset()))
     payload = Term("Some.0", (a,), None)
+    if isinstance(a, Term) and a.op == "optmark":
+        # loop-carried Option<mark>: when Some, it is a token-start mark taken at an earlier position
+        p = a.args[0].v
+        payload = Tup([
+            Enum("text::ByteOffset", [Term("bin:Sub", (Term("source_len", (), "u32"), Term("remaining_len", (Const("str", "main"), Const("int", p)), "u32")), "u32")]),
+            Enum("text::CharOffset", [Term("char_offset", (Const("str", "main"), Const("int", p)), "u32")]),
+            Term("last_line", (Const("int", -p),), "LineIdx")])
     res = []
     can_some = (inc is None or "Some" in inc or "Ok" in inc) and "Some" not in exc
     can_none = (inc is None or "None" in inc or "Err" in inc) and "None" not in exc
@@ -893,6 +917,16 @@ def str_get(I, callee, args, st, n, fidx):
             # both ends are cursor byte snapshots taken in order; a negative delta on the end must stay >= start
             ok_known = (a[2] == 0 and b[2] == 0) or (a[1] + 0 <= b[1] and b[2] >= -1 and a[2] >= -1)
         info["snap_start"], info["snap_end"] = a, b
+    if isinstance(base, Term) and base.op == "as_str" and start is None and end is not None:
+        # remaining-text view sliced by a byte distance measured on the same stream from the same position
+        e = end
+        while isinstance(e, Term) and (e.op.startswith("cast:") or e.op == "into") and e.args:
+            e = e.args[0]
+        if isinstance(e, Term) and e.op == "bin:Sub" and all(isinstance(x, Term) and x.op == "remaining_len" for x in e.args):
+            a, b = e.args
+            if a.args[0].v == base.args[0].v == b.args[0].v and a.args[1].v == base.args[1].v and b.args[1].v >= a.args[1].v:
+                ok_known = True
+                info["byte_distance"] = (a.args[1].v, b.args[1].v)
     sl = Term("str_slice", (base, start if start is not None else UNIT, end if end is not None else UNIT), "&str")
     I.emit(st, "str_get", n, ok_known=ok_known, **info)
     if ok_known:
@@ -1048,6 +1082,11 @@ def wb_last_token_info_mut(I, callee, args, st, n, fidx):
     ref = LRef(("lasttok", kind))
     if le is not None:
         return val(some(ref), st)
+    # a preceding read through the same accessor class at the same token epoch already saw Some
+    t = Term("prev_token:" + kind, (Const("int", st.tokens_epoch),), "Option<&TokenInfo>")
+    f = st.vfacts.get(t.key())
+    if f is not None and f[0] is not None and set(f[0]) == {"Some"}:
+        return val(some(ref), st)
     s2 = st.clone()
     return [Out("val", some(ref), st), Out("val", NONE, s2)]
 
@@ -1112,7 +1151,47 @@ def m_is_mnemonic(I, callee, args, st, n, fidx):
     strm = stream(I, st, cid)
     t = Term("is_macro_eval_mnemonic", (Const("str", strm), Const("int", c.pos)))
     jump(st, c)
-    return val(Tup([Term("proj0", (t,), "Option<TokenType>"), Term("proj1", (t,), "u32")]), st)
+    p0 = Term("proj0", (t,), "Option<TokenType>")
+    # the token types the helper can return (constants in its body)
+    if not hasattr(I, "_mnem"):
+        b = I.fx.fn("macro::is_macro_eval_mnemonic")
+        names = set()
+        if b:
+            for node, par in F.walk(b["hir"]):
+                if node.get("k") == "Path":
+                    cst = F.const_of(node)
+                    if cst and cst.startswith("token_type::TokenType::"):
+                        names.add(cst.split("::")[-1])
+        I._mnem = frozenset(names)
+    st.vfacts[Term("Some.0", (p0,), None).key()] = (I._mnem, frozenset())
+    return val(Tup([p0, Term("proj1", (t,), "u32")]), st)
+
+
+@prim("macro::get_macro_resolve_ops_from_amps")
+def m_resolve_ops(I, callee, args, st, n, fidx):
+    """Opaque: the vector of set-bit positions of `amp_count`; non-empty because every caller passes the
+    count returned by is_macro_amp for a position whose first char is '&' (count >= 1).  Audited contract
+    (tables/contracts.json: resolve_ops_nonempty)."""
+    st.fields["_rops"] = st.fields.get("_rops", 0) + 1
+    return val(Term("resolve_ops", (args[0], Const("int", st.fields["_rops"])), "Vec<u8>"), st)
+
+
+@prim("std::iter::IntoIterator::into_iter")
+def it_into_iter(I, callee, args, st, n, fidx):
+    a = args[0]
+    if isinstance(a, Term) and a.op == "resolve_ops":
+        return val(Term("iter_nonempty", (a,), "IntoIter<u8>"), st)
+    return val(st.sym("into_iter", n.get("ty")), st)
+
+
+@prim("core::slice::first")
+def sl_first(I, callee, args, st, n, fidx):
+    a = args[0]
+    if isinstance(a, Term) and a.op == "resolve_ops":
+        return val(some(Term("first", (a,), "&u8")), st)
+    if is_obj(a, "mode_stack"):
+        return val(st.sym("first", n.get("ty")), st)
+    return val(Term("ext:core::slice::first", (a,), n.get("ty")), st)
 
 
 @prim("macro::is_macro_stat")
@@ -1165,7 +1244,7 @@ def default_external(I, callee, args, st, n, fidx):
     if callee.startswith("closure:"):
         I.note_unanalysed("unresolved closure call", n)
     pure_args = tuple(a for a in args)
-    impure = any(callee.endswith(x) for x in ("::next", "::pop", "::next_back", "::collect", "::into_iter", "::iter",
+    impure = any(callee.endswith(x) for x in ("::next", "::pop", "::next_back", "::collect", "::into_iter",
                                               "::rev", "::filter", "::take", "::enumerate", "::map", "::chars"))
     if impure:
         return val(st.sym(callee.split("::")[-1], n.get("ty")), st)
